@@ -344,6 +344,12 @@ func judge(c *Case, p *scen.Pair, env *scen.Env, r *pbt.R) {
 
 		return
 	}
+	if p.Net.HasStormed() {
+		// the harness's datagram cap cut the network: nothing can be said about data flow
+		r.Class("harness-datagram-cap-hit")
+
+		return
+	}
 	if !sameSeq(gotS, c2s) {
 		r.Failf("C01|data-c2s", "server read %d payloads, client wrote %d (or bytes differ)", len(gotS), len(c2s))
 
